@@ -153,6 +153,37 @@ def check_shannon_structured(ctx, cirq):
             ctx.report_witness('synth:shannon', 'quantum_shannon_decomposition: the product of the operations is not the input', dict(rep, impl_out=[len(ops)], spec_out=['product = input up to phase']))
 
 
+def check_symbolic_sqrt_iswap(ctx, cirq):
+    """the symbolic sqrt-iSWAP decomposition of CZ**t / SWAP**t / ISWAP**t / FSim(theta, phi): resolved at any value of the
+    symbols (incl. the integer exponents where the angles sit at the end of their ranges) it reproduces the gate"""
+    import sympy
+
+    rng = ctx.substream('symbolic-sqrt-iswap')
+    a, b = cirq.LineQubit.range(2)
+    t, u_ = sympy.symbols('t u')
+    vals = [0, 1, -1, 2, 3, 0.5, -0.5, 1.5, 1 + 1e-10, 1 - 1e-10, 0.3, rng.uniform(-2, 2), rng.uniform(-2, 2)]
+    fams = [('CZ', lambda x, y: cirq.CZ ** x, False), ('SWAP', lambda x, y: cirq.SWAP ** x, False), ('ISWAP', lambda x, y: cirq.ISWAP ** x, False), ('FSim', lambda x, y: cirq.FSimGate(x, y), True)]
+    for name, mk, two in fams:
+        for inv in (False, True):
+            ops = cirq.parameterized_2q_op_to_sqrt_iswap_operations(mk(t, u_).on(a, b), use_sqrt_iswap_inv=inv)
+            if ops is NotImplemented:
+                ctx.count('symbolic_sqrt_iswap', f'{name}:not-implemented')
+                continue
+            circuit = cirq.Circuit(ops)
+            for tv in vals:
+                uv = rng.choice([0.0, 0.7, -1.3, np.pi]) if two else 0.0
+                ctx.count('check', 'symbolic-sqrt-iswap')
+                ctx.case(['symbolic-sqrt-iswap', name, inv, tv, uv], True)
+                rep = {'lines': [{'gate': name, 'use_sqrt_iswap_inv': inv, 't': tv, 'u': uv}], 'theorem_or_correspondence': 'operation product'}
+                try:
+                    got = cirq.resolve_parameters(circuit, {'t': tv, 'u': uv}).unitary(qubit_order=[a, b])
+                except (ValueError, TypeError) as e:
+                    ctx.report_witness('synth:symbolic-sqrt-iswap:raises', f'the symbolic sqrt-iSWAP decomposition cannot be resolved at this value: {str(e)[:80]}', dict(rep, impl_out=[str(e)[:200]], spec_out=['the gate']))
+                    continue
+                if not phase_close(got, cirq.unitary(mk(tv, uv)), 1e-6):
+                    ctx.report_witness('synth:symbolic-sqrt-iswap', 'the resolved symbolic sqrt-iSWAP decomposition is not the gate', dict(rep, impl_out=['...'], spec_out=['the gate up to global phase']))
+
+
 def check_factoring(ctx, cirq, n):
     """factor_state_vector / factor_density_matrix: on a product state, for every choice and order of the extracted axes, the
     factors multiply back to the input (validation accepts it); an entangled state is rejected"""
@@ -499,6 +530,7 @@ def run(ctx: common.Run):
     check_matrix_routines(ctx, cirq, n)
     check_factoring(ctx, cirq, max(20, n // 2))
     check_shannon_structured(ctx, cirq)
+    check_symbolic_sqrt_iswap(ctx, cirq)
     check_cnot_counts_and_tabulation(ctx, cirq, max(24, n // 2))
     check_synthesis(ctx, cirq, n)
 
